@@ -29,9 +29,11 @@ RLP_HARNESSES = [
     ('vp_kani_rlp::u16_encode_conforms', '<u16 as Encodable>::encode/length == rlp_uint for all 65536 values (complete)'),
     ('vp_kani_rlp::header_decode_bytes_conforms', 'Header::decode_bytes(buf, is_list): Ok <==> header kind matches; exact payload slice and advance; buffers <= 12 bytes'),
     ('vp_kani_rlp::u64_decode_conforms', '<u64 as Decodable>::decode == uint_ok(.,8) / be_val on every buffer of <= 11 bytes'),
+    ('vp_kani_rlp::ipv4_decode_conforms', '<Ipv4Addr as Decodable>::decode == fixed_str_ok(.,4) and yields the payload, on every buffer of <= 8 bytes'),
+    ('vp_kani_rlp::ipv6_decode_conforms', '<Ipv6Addr as Decodable>::decode == fixed_str_ok(.,16) and yields the payload, on every buffer of <= 20 bytes'),
     ('vp_kani_rlp::header_encode_conforms', 'Header::encode/length == spec hdr(list, n) for every list flag and every usize n (complete)'),
 ]
-RLP_PROPS = ('C02', 'C04', 'C07', 'C13', 'C14')
+RLP_PROPS = ('C02', 'C04', 'C07', 'C13', 'C14')  # every property whose proof rests on the assumed alloy-rlp contracts
 
 
 B64_HARNESSES = [
